@@ -207,7 +207,23 @@ func (d *dialHooks) PostDial(s erpc.PreSession, isRedial bool) *erpc.Status {
 	return nil
 }
 
+// torn-call gate: the next call that reaches the point call.stored (registered as pending, not yet written)
+// is held there until released
+var (
+	tornArmed   int32
+	tornReached chan struct{}
+	tornRelease chan struct{}
+)
+
+func tornPoint(point string, sess erpc.Session, a, b int64) {
+	if point == "call.stored" && atomic.CompareAndSwapInt32(&tornArmed, 1, 0) {
+		close(tornReached)
+		<-tornRelease
+	}
+}
+
 func runRedial(rec *Rec, app *App, fw *forwarder, sc *RedialScenario, n int) {
+	erpc.VerifPoint = tornPoint
 	budget := sc.Steps[0].Budget
 	rec.SetTrace(sc.ID, map[string]interface{}{"mode": "redial", "budget": budget})
 	fw.up()
@@ -296,6 +312,35 @@ func runRedial(rec *Rec, app *App, fw *forwarder, sc *RedialScenario, n int) {
 						return false
 					}
 				})
+			}
+		case "calltorn":
+			// the call is registered as pending, then the connection is lost and the reader notices, then the call goes on
+			tornReached, tornRelease = make(chan struct{}), make(chan struct{})
+			atomic.StoreInt32(&tornArmed, 1)
+			res := new(Res)
+			done := make(chan erpc.CallCmd, 1)
+			go func() { done <- sess.Call(CallRoute, &Arg{Tag: tag}, res) }()
+			select {
+			case <-tornReached:
+				losses++
+				fw.waitConn(300 * time.Millisecond)
+				preLoss()
+				fw.cut()
+				detectLoss()
+				time.Sleep(5 * time.Millisecond)
+			case <-time.After(time.Second):
+				atomic.StoreInt32(&tornArmed, 0)
+			}
+			select {
+			case <-tornRelease:
+			default:
+				close(tornRelease)
+			}
+			select {
+			case cmd := <-done:
+				rec.Emit("CallDone", "expect", stp.Expect, "code", cmd.Status().Code(), "msg", cmd.Status().Msg(), "resok", res.Tag == F(tag), "torn", true)
+			case <-time.After(4 * time.Second):
+				rec.Emit("CallHang", "expect", stp.Expect, "torn", true)
 			}
 		case "calllong":
 			hold := make(chan struct{})
